@@ -4,6 +4,8 @@ Sensitivity to a field is a reachability question: does the field flow into the 
 D1 field-coverage tables of every id, D2 generated processors have no identity in processor_ref,
 so the sweep definition must reach the pipeline ids through the preprocessor metadata,
 D3 positional discriminator and complete domain signatures.
+
+Locals are identified by role; helper functions of the same module are followed one level.
 """
 from __future__ import annotations
 
@@ -13,18 +15,23 @@ from typing import Dict, List, Optional, Set, Tuple
 from ..engine import (
     AnalysisError,
     FuncNode,
+    Module,
     Repo,
     ancestors,
     assigned_value,
     call_attr,
     call_name,
     calls_in,
+    dict_items_built,
     dotted_name,
     kwarg,
     norm,
+    returned_values,
+    slice_text,
     stmt_of,
     walk_no_nested,
 )
+from ..pat import find, find1, match, name_of
 from ..report import Report
 
 GRAPH = "semantiva/pipeline/graph_builder.py"
@@ -38,35 +45,71 @@ UI_ONLY_ALLOWED = {"preprocessor_view"}
 CANON_DROP_ALLOWED = {"expr"}
 
 
+def _u(e: Optional[ast.AST]) -> str:
+    return ast.unparse(e) if e is not None else ""
+
+
 def dict_literal_keys(d: ast.AST) -> Set[str]:
     return {k.value for k in d.keys if isinstance(k, ast.Constant)} if isinstance(d, ast.Dict) else set()
 
 
+def mapping_keys_of(mod: Module, fn: ast.AST, expr: ast.AST, depth: int = 0) -> Dict[str, ast.AST]:
+    """Constant keys of the mapping *expr* evaluates to, following locals, subscript stores on the
+    local, and one level of same-module helper functions."""
+    out: Dict[str, ast.AST] = {}
+    if isinstance(expr, (ast.Dict, ast.IfExp)):
+        out.update(dict_items_built(fn, expr))
+    if isinstance(expr, ast.Name):
+        for v in assigned_value(fn, expr.id):
+            out.update(mapping_keys_of(mod, fn, v, depth))
+        for n in ast.walk(fn):
+            if isinstance(n, ast.Assign):
+                for t in n.targets:
+                    if isinstance(t, ast.Subscript) and dotted_name(t.value) == expr.id and isinstance(t.slice, ast.Constant):
+                        out.setdefault(t.slice.value, n.value)
+    if isinstance(expr, ast.Call) and depth < 2:
+        callee = mod.defs.get(call_attr(expr) or "")
+        if isinstance(callee, FuncNode):
+            for rv in returned_values(callee):
+                out.update(mapping_keys_of(mod, callee, rv, depth + 1))
+            for r in walk_no_nested(callee):
+                if isinstance(r, ast.Return) and isinstance(r.value, ast.Name):
+                    out.update(mapping_keys_of(mod, callee, r.value, depth + 1))
+    return out
+
+
 def field_coverage(repo: Repo, R: Report) -> None:
     r = R.rule("C05-D1-field-coverage", "every identity-bearing field reaches the bytes that are hashed: node uuid <- whole canonical node (role, processor_ref, full-depth params, ports, declaration index); node semantic id <- whole sweep metadata minus exactly the UI-only keys; pipeline semantic id <- node uuid and node semantic id of every node in order; config id <- every (uuid, semantic id) pair; pipeline id <- whole canonical graph", 16)
+    gmod = repo.module(GRAPH)
     cn = repo.func(GRAPH, "_canonical_node")
-    lits = [n for n in walk_no_nested(cn) if isinstance(n, ast.Dict) and CANON_KEYS & dict_literal_keys(n)]
-    keys = dict_literal_keys(lits[0]) if lits else set()
+    keys: Dict[str, ast.AST] = {}
+    for rv in returned_values(cn):
+        keys.update(mapping_keys_of(gmod, cn, rv))
+    for r_ in walk_no_nested(cn):
+        if isinstance(r_, ast.Return) and isinstance(r_.value, ast.Name):
+            keys.update(mapping_keys_of(gmod, cn, r_.value))
     for k in sorted(CANON_KEYS):
         R.check(k in keys, r, GRAPH, "_canonical_node", f"canonical node carries {k!r}", f"field {k!r} no longer enters the canonical node: two configurations differing only there get the same node uuid", cn.lineno)
     bcs = repo.func(GRAPH, "build_canonical_spec")
-    dumps = [c for c in calls_in(bcs) if call_name(c) == "json.dumps"]
-    uu = [c for c in calls_in(bcs) if call_name(c) == "uuid.uuid5"]
+    uu = [c for c in ast.walk(bcs) if isinstance(c, ast.Call) and call_name(c) == "uuid.uuid5"]
     ok = False
-    if len(dumps) == 1 and len(uu) == 1:
-        arg = dumps[0].args[0]
-        canon_defs = assigned_value(bcs, arg.id) if isinstance(arg, ast.Name) else []
-        ok = isinstance(arg, ast.Name) and bool(canon_defs) and all(isinstance(v, ast.Call) and call_attr(v) == "_canonical_node" for v in canon_defs)
-        hashed = uu[0].args[1] if len(uu[0].args) > 1 else None
-        hv = assigned_value(bcs, hashed.id) if isinstance(hashed, ast.Name) else []
-        ok = ok and bool(hv) and all(v is dumps[0] for v in hv)
+    canon_name = None
+    if len(uu) == 1 and len(uu[0].args) > 1:
+        txt = slice_text(bcs, uu[0].args[1], 3)
+        dumps = [c for c in ast.walk(bcs) if isinstance(c, ast.Call) and call_name(c) == "json.dumps"]
+        for d in dumps:
+            if _u(d) in txt and d.args and isinstance(d.args[0], ast.Name):
+                cdefs = assigned_value(bcs, d.args[0].id)
+                if cdefs and all(isinstance(v, ast.Call) and call_attr(v) == "_canonical_node" for v in cdefs):
+                    ok = True
+                    canon_name = d.args[0].id
     R.check(ok, r, GRAPH, "build_canonical_spec", "node_uuid = uuid5(ns, json.dumps(<whole canonical node>))", "the node uuid is not derived from the complete canonical node", bcs.lineno)
-    pstores = [n for n in walk_no_nested(bcs) if isinstance(n, ast.Assign) and any(isinstance(t, ast.Subscript) and isinstance(t.slice, ast.Constant) and t.slice.value == "params" for t in n.targets)]
-    ok = len(pstores) == 1 and isinstance(pstores[0].value, ast.Call) and call_attr(pstores[0].value) == "descriptor_to_json" and bool(dumps) and pstores[0].lineno < dumps[0].lineno
-    R.check(ok, r, GRAPH, "build_canonical_spec", "canon['params'] = descriptor_to_json(params) before hashing", "the effective parameter map (full depth) is not what gets hashed into the node uuid", bcs.lineno)
+    pstores = [n for n in ast.walk(bcs) if isinstance(n, ast.Assign) and any(isinstance(t, ast.Subscript) and dotted_name(t.value) == canon_name and isinstance(t.slice, ast.Constant) and t.slice.value == "params" for t in n.targets)]
+    ok = len(pstores) == 1 and isinstance(pstores[0].value, ast.Call) and call_attr(pstores[0].value) == "descriptor_to_json" and bool(uu) and pstores[0].lineno < uu[0].lineno
+    R.check(ok, r, GRAPH, "build_canonical_spec", "canon['params'] = descriptor_to_json(params) before hashing", "the effective parameter map (full depth, as given) is not what gets hashed into the node uuid", bcs.lineno)
     # pipeline id
     cpi = repo.func(GRAPH, "compute_pipeline_id")
-    d = [c for c in calls_in(cpi) if call_name(c) == "json.dumps"]
+    d = [c for c in ast.walk(cpi) if isinstance(c, ast.Call) and call_name(c) == "json.dumps"]
     ok = len(d) == 1 and dotted_name(d[0].args[0]) == cpi.args.args[0].arg
     R.check(ok, r, GRAPH, "compute_pipeline_id", "json.dumps(<whole canonical spec>)", "pipeline id hashes only a part of the canonical graph", cpi.lineno)
     # node semantic id: only UI-only keys are dropped
@@ -82,75 +125,80 @@ def field_coverage(repo: Repo, R: Report) -> None:
                 if isinstance(x, ast.Constant) and isinstance(x.value, str):
                     dropped.add(x.value)
     R.check(dropped <= CANON_DROP_ALLOWED, r, SEM, "compute_node_semantic_id", f"keys dropped by canonicalisation: {sorted(dropped)}", f"{sorted(dropped - CANON_DROP_ALLOWED)} are dropped before hashing", cns.lineno)
-    hd = [c for c in calls_in(cns) if call_name(c) == "json.dumps"]
-    ok = bool(hd) and isinstance(hd[0].args[0], ast.Name) and any(isinstance(v, ast.Call) and call_attr(v) == "_canonicalize" for v in assigned_value(cns, hd[0].args[0].id))
-    R.check(ok, r, SEM, "compute_node_semantic_id", "hash(json.dumps(_canonicalize(_strip_ui_only(meta))))", "node semantic id does not hash the whole (UI-stripped) metadata", cns.lineno)
+    hd = [c for c in ast.walk(cns) if isinstance(c, ast.Call) and call_name(c) == "json.dumps" and not any(isinstance(a, FuncNode) and a is not cns for a in ancestors(c))]
+    inner = [n.name for n in ast.walk(cns) if isinstance(n, FuncNode) and n is not cns]
+    ok = False
+    if hd:
+        txt = slice_text(cns, hd[0].args[0], 5)
+        ok = "_strip_ui_only(" in txt and cns.args.args[0].arg in txt and any(f"{nm}(" in txt for nm in inner)
+    R.check(ok, r, SEM, "compute_node_semantic_id", "hash(json.dumps(canonicalise(_strip_ui_only(meta))))", "node semantic id does not hash the whole (UI-stripped) metadata", cns.lineno)
     # pipeline semantic id
     cps = repo.func(SEM, "compute_pipeline_semantic_id")
-    lcs = [n for n in ast.walk(cps) if isinstance(n, ast.ListComp)]
+    param = cps.args.args[0].arg
+    lcs = [n for n in ast.walk(cps) if isinstance(n, ast.ListComp) and "nodes" in _u(n.generators[0].iter)]
+    loops = [n for n in ast.walk(cps) if isinstance(n, ast.For) and "nodes" in _u(n.iter) and param in _u(n.iter)]
     ok = False
-    per_node: Set[str] = set()
+    per_node: Dict[str, ast.AST] = {}
     if lcs:
         lc = lcs[0]
         gen = lc.generators[0]
-        ok = not gen.ifs and "nodes" in ast.unparse(gen.iter) and not any(call_attr(c) in ("sorted", "set", "reversed") for c in ast.walk(gen.iter) if isinstance(c, ast.Call))
-        per_node = dict_literal_keys(lc.elt)
-        for v in (lc.elt.values if isinstance(lc.elt, ast.Dict) else []):
-            for dd in ast.walk(v):
-                if isinstance(dd, ast.Dict):
-                    per_node |= dict_literal_keys(dd)
+        ok = not gen.ifs and param in _u(gen.iter) and not any(call_attr(c) in ("sorted", "set", "reversed") for c in ast.walk(gen.iter) if isinstance(c, ast.Call))
+        per_node = mapping_keys_of(sem, cps, lc.elt)
+    elif loops:
+        lp = loops[0]
+        ok = not any(isinstance(x, (ast.Continue, ast.Break)) for x in ast.walk(lp)) and not any(call_attr(c) in ("sorted", "set", "reversed") for c in ast.walk(lp.iter) if isinstance(c, ast.Call))
+        for c in calls_in(lp):
+            if call_attr(c) == "append" and c.args:
+                per_node = mapping_keys_of(sem, cps, c.args[0])
     R.check(ok, r, SEM, "compute_pipeline_semantic_id", "per-node list over all canonical nodes, in order, unfiltered", "nodes are filtered / reordered before hashing: number or order of nodes can change without changing the semantic id", cps.lineno)
     R.check("node_uuid" in per_node, r, SEM, "compute_pipeline_semantic_id", "per-node structure contains node_uuid", "node uuid (processor, parameters, position) does not reach the pipeline semantic id", cps.lineno)
     R.check("node_semantic_id" in per_node, r, SEM, "compute_pipeline_semantic_id", "per-node structure contains node_semantic_id", "the sweep definition (wrapped processor, expressions, domains, mode, broadcast, collection) never reaches the pipeline semantic id: generated sweep classes share one processor_ref", cps.lineno)
-    nsi = [c for c in ast.walk(cps) if isinstance(c, ast.Call) and call_attr(c) == "compute_node_semantic_id"]
-    ok = bool(nsi) and "preprocessor_metadata" in ast.unparse(nsi[0].args[0])
+    nsv = per_node.get("node_semantic_id")
+    ok = nsv is not None and any(isinstance(c, ast.Call) and call_attr(c) == "compute_node_semantic_id" and "preprocessor_metadata" in _u(c.args[0]) for c in ast.walk(nsv))
     R.check(ok, r, SEM, "compute_pipeline_semantic_id", "node_semantic_id = compute_node_semantic_id(node['preprocessor_metadata'])", "the rolled-up node semantic id is not computed from the node's preprocessor metadata", cps.lineno)
-    pd = [c for c in calls_in(cps) if call_name(c) == "json.dumps"]
-    ok = bool(pd) and isinstance(pd[0].args[0], ast.Name) and any(isinstance(v, ast.Dict) for v in assigned_value(cps, pd[0].args[0].id))
+    pd = [c for c in ast.walk(cps) if isinstance(c, ast.Call) and call_name(c) == "json.dumps"]
+    ok = bool(pd) and ("'nodes'" in slice_text(cps, pd[0].args[0], 3))
     R.check(ok, r, SEM, "compute_pipeline_semantic_id", "hash(json.dumps(pipeline_structure))", "the per-node structure is not what gets hashed", cps.lineno)
     # config id
     cpc = repo.func(SEM, "compute_pipeline_config_id")
-    src = ast.unparse(cpc)
-    ok = "_sha256_json(ordered)" in src and any(isinstance(v, ast.Call) and call_attr(v) == "sorted" and dotted_name(v.args[0]) == cpc.args.args[0].arg for v in assigned_value(cpc, "ordered"))
+    hs = [c for c in ast.walk(cpc) if isinstance(c, ast.Call) and call_attr(c) in ("_sha256_json",)]
+    ok = False
+    if hs and hs[0].args:
+        txt = slice_text(cpc, hs[0].args[0], 3)
+        ok = "sorted(" in txt and cpc.args.args[0].arg in txt and "[:" not in txt
     R.check(ok, r, SEM, "compute_pipeline_config_id", "hash of all (uuid, semantic id) pairs", "config id does not cover every pair", cpc.lineno)
 
 
 def sweep_metadata(repo: Repo, R: Report) -> None:
     r = R.rule("C05-D2-sweep-definition-in-metadata", "generated sweep classes carry no identity in processor_ref; the whole sweep definition (wrapped processor, expression signatures, variable domains, mode, broadcast, collection, dependencies) is in the preprocessor metadata, and the same metadata object enriches the canonical nodes on the inspection and the run-time path; a string processor reference is hashed as written", 12)
+    smod = repo.module(SWEEP)
     create = repo.func(SWEEP, "ParametricSweepFactory.create")
     pm = next((n for n in ast.walk(create) if isinstance(n, FuncNode) and n.name == "_preprocessor_metadata"), None)
     if pm is None:
         raise AnalysisError("_preprocessor_metadata not found")
-    ret = next((n.value for n in walk_no_nested(pm) if isinstance(n, ast.Return) and isinstance(n.value, ast.Dict)), None)
-    keys = {k.value: v for k, v in zip(ret.keys, ret.values) if isinstance(k, ast.Constant)} if ret is not None else {}
+    keys: Dict[str, ast.AST] = {}
+    for rv in returned_values(pm):
+        keys.update(mapping_keys_of(smod, pm, rv))
     sources = {
         "element_ref": "_element", "param_expressions": "_expr_src", "variables": "_vars", "mode": "_mode", "broadcast": "_broadcast", "collection": "_collection_output", "dependencies": "_required_external",
     }
     for k in sorted(SWEEP_META_KEYS):
         v = keys.get(k)
-        txt = ""
-        if v is not None:
-            txt = ast.unparse(v)
-            for nm in {x.id for x in ast.walk(v) if isinstance(x, ast.Name)}:
-                for d in assigned_value(pm, nm):
-                    txt += " " + ast.unparse(d)
-                    for nm2 in {x.id for x in ast.walk(d) if isinstance(x, ast.Name)}:
-                        for d2 in assigned_value(pm, nm2):
-                            txt += " " + ast.unparse(d2)
+        txt = slice_text(pm, v, 3) if v is not None else ""
         R.check(v is not None and sources[k] in txt, r, SWEEP, "ParametricSweepFactory.create._preprocessor_metadata", f"metadata[{k!r}] <- cls.{sources[k]}", f"the sweep's {k} does not reach the metadata that is hashed: changing it changes no id", pm.lineno)
-    pe = keys.get("param_expressions")
-    pe_txt = " ".join(ast.unparse(d) for d in ([pe] + (assigned_value(pm, pe.id) if isinstance(pe, ast.Name) else [])) if d is not None)
-    R.check("normalize_expression_sig_v1(src)" in pe_txt.replace(" ", "").replace("normalize_expression_sig_v1(src)", "normalize_expression_sig_v1(src)") or "normalize_expression_sig_v1(" in pe_txt, r, SWEEP, "ParametricSweepFactory.create._preprocessor_metadata", "param_expressions[*].sig = normalize_expression_sig_v1(source)", "expression signatures are not computed from the expression source", pm.lineno)
-    vm = keys.get("variables")
-    vm_txt = " ".join(ast.unparse(d) for d in ([vm] + (assigned_value(pm, vm.id) if isinstance(vm, ast.Name) else [])) if d is not None)
-    R.check("variable_domain_signature(spec)" in vm_txt, r, SWEEP, "ParametricSweepFactory.create._preprocessor_metadata", "variables[*] = variable_domain_signature(spec)", "variable domains are not summarised by the domain signature", pm.lineno)
-    # every generated variant exposes the metadata
+    pe_txt = slice_text(pm, keys.get("param_expressions"), 3)
+    R.check("normalize_expression_sig_v1(" in pe_txt, r, SWEEP, "ParametricSweepFactory.create._preprocessor_metadata", "param_expressions[*].sig = normalize_expression_sig_v1(source)", "expression signatures are not computed from the expression source", pm.lineno)
+    vm_txt = slice_text(pm, keys.get("variables"), 3)
+    R.check("variable_domain_signature(" in vm_txt, r, SWEEP, "ParametricSweepFactory.create._preprocessor_metadata", "variables[*] = variable_domain_signature(spec)", "variable domains are not summarised by the domain signature", pm.lineno)
     n_hooks = sum(1 for n in ast.walk(create) if isinstance(n, ast.Assign) and any(isinstance(t, ast.Subscript) and isinstance(t.slice, ast.Constant) and t.slice.value == "preprocessor" for t in n.targets) and isinstance(n.value, ast.Call) and call_attr(n.value) == "_preprocessor_metadata")
     R.check(n_hooks == 3, r, SWEEP, "ParametricSweepFactory.create", "meta['preprocessor'] = _preprocessor_metadata(cls) in all three variants", f"only {n_hooks} of the 3 generated sweep variants publish their definition", create.lineno)
     # string processor refs are hashed as written
+    gmod = repo.module(GRAPH)
     cn = repo.func(GRAPH, "_canonical_node")
-    lits = [n for n in walk_no_nested(cn) if isinstance(n, ast.Dict) and "processor_ref" in dict_literal_keys(n)]
-    pv = dict(zip([k.value for k in lits[0].keys if isinstance(k, ast.Constant)], lits[0].values)).get("processor_ref") if lits else None
+    keys_cn: Dict[str, ast.AST] = {}
+    for rv in returned_values(cn):
+        keys_cn.update(mapping_keys_of(gmod, cn, rv))
+    pv = keys_cn.get("processor_ref")
     pname = pv.id if isinstance(pv, ast.Name) else None
     defs = [n for n in walk_no_nested(cn) if isinstance(n, ast.Assign) and any(isinstance(t, ast.Name) and t.id == pname for t in n.targets)]
     ok = bool(defs)
@@ -158,76 +206,89 @@ def sweep_metadata(repo: Repo, R: Report) -> None:
         if isinstance(d.value, ast.Call) and call_attr(d.value) == "get" and dotted_name(d.value.func.value) == cn.args.args[0].arg:
             continue
         guards = [a for a in ancestors(d) if isinstance(a, ast.If)]
-        is_type_branch = any("isinstance" in ast.unparse(g.test) and "type" in ast.unparse(g.test) and "str" not in ast.unparse(g.test) for g in guards)
-        if is_type_branch and isinstance(d.value, ast.JoinedStr) and "__qualname__" in ast.unparse(d.value):
+        is_type_branch = any("isinstance" in _u(g.test) and "type" in _u(g.test) and "str" not in _u(g.test) for g in guards)
+        if is_type_branch and isinstance(d.value, ast.JoinedStr) and "__qualname__" in _u(d.value):
             continue
         ok = False
-        R.violation(r, GRAPH, "_canonical_node", norm(d), "a string processor reference is rewritten before hashing (e.g. resolved to a generated class whose name drops parts of the shorthand): `template:` / `rename:` / `delete:` nodes that differ in meaning get the same node uuid", d.lineno)
+        R.violation(r, GRAPH, "_canonical_node", "processor_ref rewritten before hashing", "a string processor reference is rewritten before hashing (e.g. resolved to a generated class whose name drops parts of the shorthand): `template:` / `rename:` / `delete:` nodes that differ in meaning get the same node uuid", d.lineno)
     if ok:
         R.ok(r, GRAPH, "_canonical_node", f"processor_ref: string kept as written, class -> module.qualname ({len(defs)} defs)", "", cn.lineno)
     # same metadata object on both paths
     bip = repo.func(BUILDER, "build_inspection_payload")
-    stores = [n for n in ast.walk(bip) if isinstance(n, ast.Assign) and any(isinstance(t, ast.Subscript) and isinstance(t.slice, ast.Constant) and t.slice.value == "preprocessor_metadata" and dotted_name(t.value) == "enriched" for t in n.targets)]
+    insp_p = next((a.arg for a in bip.args.kwonlyargs + bip.args.args if a.arg == "inspection"), "inspection")
+    stores = [n for n in ast.walk(bip) if isinstance(n, ast.Assign) and any(isinstance(t, ast.Subscript) and isinstance(t.slice, ast.Constant) and t.slice.value == "preprocessor_metadata" for t in n.targets)]
     ok = bool(stores)
     for s in stores:
-        vals = assigned_value(bip, s.value.id) if isinstance(s.value, ast.Name) else [s.value]
-        ok = ok and bool(vals) and all("inspection.nodes" in ast.unparse(v) and ".preprocessor_metadata" in ast.unparse(v) for v in vals)
+        txt = slice_text(bip, s.value, 3)
+        ok = ok and f"{insp_p}.nodes" in txt and ".preprocessor_metadata" in txt and "_build_sweep_payload" not in txt
     R.check(ok, r, BUILDER, "build_inspection_payload", "enriched['preprocessor_metadata'] = inspection.nodes[i].preprocessor_metadata", "the inspection path enriches the canonical nodes with something other than the processor's full preprocessor metadata (e.g. a sanitised view without element_ref): its semantic id ignores part of the sweep definition and differs from the run-time one", bip.lineno)
     bpi = repo.func(BUILDER, "build_pipeline_inspection")
-    st2 = [n for n in ast.walk(bpi) if isinstance(n, ast.Assign) and any(dotted_name(t) == "node_inspection.preprocessor_metadata" for t in n.targets)]
-    ok = bool(st2) and all(any("get('preprocessor')" in ast.unparse(v) for v in assigned_value(bpi, s.value.id)) for s in st2 if isinstance(s.value, ast.Name))
+    st2 = [n for n in ast.walk(bpi) if isinstance(n, ast.Assign) and any(isinstance(t, ast.Attribute) and t.attr == "preprocessor_metadata" for t in n.targets)]
+    ok = bool(st2) and all(".get('preprocessor')" in slice_text(bpi, s.value, 3) for s in st2)
     R.check(ok, r, BUILDER, "build_pipeline_inspection", "node_inspection.preprocessor_metadata = processor metadata['preprocessor']", "inspection records a different preprocessor metadata than the processor publishes", bpi.lineno)
     ex = repo.func(ORCH, "SemantivaOrchestrator.execute")
     st3 = [n for n in ast.walk(ex) if isinstance(n, ast.Assign) and any(isinstance(t, ast.Subscript) and isinstance(t.slice, ast.Constant) and t.slice.value == "preprocessor_metadata" for t in n.targets)]
-    ok = bool(st3) and all(isinstance(s.value, ast.Name) and any("get('preprocessor')" in ast.unparse(v) for v in assigned_value(ex, s.value.id)) for s in st3)
+    ok = bool(st3) and all(".get('preprocessor')" in slice_text(ex, s.value, 3) for s in st3)
     R.check(ok, r, ORCH, "SemantivaOrchestrator.execute", "canonical node enriched with processor metadata['preprocessor']", "the run-time path enriches canonical nodes with something other than the processor's preprocessor metadata", ex.lineno)
+    # the metadata is read fresh from each processor class (not memoised under a key generated classes share)
+    gm = [c for c in ast.walk(ex) if isinstance(c, ast.Call) and call_attr(c) == "get_metadata"]
+    cached = [n for n in ast.walk(ex) if isinstance(n, ast.Assign) and any(isinstance(t, ast.Subscript) and not isinstance(t.slice, ast.Constant) for t in n.targets) and any(isinstance(c, ast.Call) and call_attr(c) == "get_metadata" for c in ast.walk(n.value))]
+    R.check(bool(gm) and not cached, r, ORCH, "SemantivaOrchestrator.execute", "processor metadata read per node, not memoised by name", "processor metadata is memoised under a key (e.g. module.qualname) that generated sweep classes share: a second sweep gets the first one's definition", ex.lineno)
 
 
 def positional_and_domains(repo: Repo, R: Report) -> None:
     r = R.rule("C05-D3-position-and-domain", "declaration_index is the enumerate() index of the node in the spec; the range signature covers every RangeSpec field; the sequence signature covers count and a digest of all values", 9)
+    gmod = repo.module(GRAPH)
     bcs = repo.func(GRAPH, "build_canonical_spec")
     loops = [n for n in walk_no_nested(bcs) if isinstance(n, ast.For) and isinstance(n.iter, ast.Call) and call_attr(n.iter) == "enumerate"]
     ok = False
     if loops:
         idx = loops[0].target.elts[0].id if isinstance(loops[0].target, ast.Tuple) else None
         c = next((c for c in calls_in(loops[0]) if call_attr(c) == "_canonical_node"), None)
-        ok = c is not None and len(c.args) >= 2 and dotted_name(c.args[1]) == idx and not loops[0].iter.keywords and len(loops[0].iter.args) == 1
+        a1 = (c.args[1] if c is not None and len(c.args) >= 2 else kwarg(c, "declaration_index") if c is not None else None)
+        ok = c is not None and dotted_name(a1) == idx and not loops[0].iter.keywords and len(loops[0].iter.args) == 1
     R.check(ok, r, GRAPH, "build_canonical_spec", "_canonical_node(cfg, <enumerate index>, ...)", "identical nodes at different positions can receive the same uuid", bcs.lineno)
     cn = repo.func(GRAPH, "_canonical_node")
-    lit = next((n for n in walk_no_nested(cn) if isinstance(n, ast.Dict) and "declaration_index" in dict_literal_keys(n)), None)
-    di = dict(zip([k.value for k in lit.keys if isinstance(k, ast.Constant)], lit.values)).get("declaration_index") if lit is not None else None
-    R.check(dotted_name(di) == "declaration_index", r, GRAPH, "_canonical_node", "'declaration_index': declaration_index", "the positional discriminator is not the parameter", cn.lineno)
+    keys_cn: Dict[str, ast.AST] = {}
+    for rv in returned_values(cn):
+        keys_cn.update(mapping_keys_of(gmod, cn, rv))
+    R.check(dotted_name(keys_cn.get("declaration_index")) == "declaration_index", r, GRAPH, "_canonical_node", "'declaration_index': declaration_index", "the positional discriminator is not the parameter", cn.lineno)
     # RangeSpec fields vs signature
     rs = repo.cls(SWEEP, "RangeSpec")
     fields = [st.target.id for st in rs.body if isinstance(st, ast.AnnAssign) and isinstance(st.target, ast.Name)]
     vds = repo.func(SEM, "variable_domain_signature")
-    range_ret = None
-    seq_ret = None
-    for n in walk_no_nested(vds):
-        if isinstance(n, ast.Return) and isinstance(n.value, ast.Dict):
-            kinds = dict(zip([k.value for k in n.value.keys if isinstance(k, ast.Constant)], n.value.values))
+    sp = vds.args.args[0].arg
+    range_ret = seq_ret = fc_ret = None
+    for n in ast.walk(vds):
+        if isinstance(n, ast.Dict):
+            kinds = dict(zip([k.value for k in n.keys if isinstance(k, ast.Constant)], n.values))
             kv = kinds.get("kind")
-            if isinstance(kv, ast.Constant) and kv.value == "range":
-                range_ret = kinds
-            if isinstance(kv, ast.Constant) and kv.value == "sequence":
-                seq_ret = kinds
+            if isinstance(kv, ast.Constant):
+                if kv.value == "range":
+                    range_ret = kinds
+                elif kv.value == "sequence":
+                    seq_ret = kinds
+                elif kv.value == "from_context":
+                    fc_ret = kinds
     if range_ret is None or seq_ret is None:
-        raise AnalysisError("variable_domain_signature: range / sequence branches not found")
+        raise AnalysisError("variable_domain_signature: range / sequence signatures not found")
     for f in fields:
         v = range_ret.get(f)
-        R.check(v is not None and f"'{f}'" in ast.unparse(v) or (v is not None and f".{f}" in ast.unparse(v)), r, SEM, "variable_domain_signature", f"range signature covers RangeSpec.{f}", f"RangeSpec.{f} is not part of the domain signature: changing it changes no id", vds.lineno)
+        R.check(v is not None and (f"'{f}'" in _u(v) or f"{sp}.{f}" in _u(v)), r, SEM, "variable_domain_signature", f"range signature covers RangeSpec.{f}", f"RangeSpec.{f} is not part of the domain signature: changing it changes no id", vds.lineno)
+    vals_var = next((t.id for n in walk_no_nested(vds) if isinstance(n, ast.Assign) and match(f"list({sp}.values)", n.value) for t in n.targets if isinstance(t, ast.Name)), None)
     cnt = seq_ret.get("count")
-    R.check(cnt is not None and ast.unparse(cnt) == "len(values)", r, SEM, "variable_domain_signature", "sequence signature: count = len(values)", "the number of values is not part of the signature", vds.lineno)
-    dig = [v for v in assigned_value(vds, "digest")]
-    ok = bool(dig) and all(("values" in {x.id for x in ast.walk(v) if isinstance(x, ast.Name)}) and not any(isinstance(s, ast.Subscript) for s in ast.walk(v)) for v in dig)
-    vals = assigned_value(vds, "values")
-    ok = ok and bool(vals) and all(ast.unparse(v) == "list(spec.values)" for v in vals)
-    sample = seq_ret.get("sample")
-    ok = ok and sample is not None and "digest" in ast.unparse(sample)
+    R.check(cnt is not None and vals_var is not None and _u(cnt) == f"len({vals_var})", r, SEM, "variable_domain_signature", "sequence signature: count = len(values)", "the number of values is not part of the signature", vds.lineno)
+    sample_txt = slice_text(vds, seq_ret.get("sample"), 1)
+    dig_calls = [c for c in ast.walk(vds) if isinstance(c, ast.Call) and (call_attr(c) == "_sha256_json" or call_name(c) == "hashlib.sha256")]
+    ok = vals_var is not None and bool(dig_calls)
+    for c in dig_calls:
+        a = c.args[0] if c.args else None
+        names = {x.id for x in ast.walk(a) if isinstance(x, ast.Name)} if a is not None else set()
+        ok = ok and vals_var in names and not any(isinstance(s, ast.Subscript) for s in ast.walk(a))
+    digest_var = next((t.id for n in ast.walk(vds) if isinstance(n, ast.Assign) and n.value in dig_calls or (isinstance(n, ast.Assign) and any(c in list(ast.walk(n.value)) for c in dig_calls)) for t in n.targets if isinstance(t, ast.Name)), None)
+    ok = ok and digest_var is not None and digest_var in sample_txt.split(" ; ")[0]
     R.check(ok, r, SEM, "variable_domain_signature", "sequence signature: digest over all values", "the sequence digest covers only a part of the values (e.g. head/tail): sequences differing in the middle share a signature", vds.lineno)
-    fc = [n for n in walk_no_nested(vds) if isinstance(n, ast.Return) and isinstance(n.value, ast.Dict) and any(isinstance(v, ast.Constant) and v.value == "from_context" for v in n.value.values)]
-    ok = bool(fc) and "key" in dict_literal_keys(fc[0].value)
-    R.check(ok, r, SEM, "variable_domain_signature", "from_context signature carries the key", "the context key of a from_context variable is not part of the signature", vds.lineno)
+    R.check(fc_ret is not None and "key" in fc_ret, r, SEM, "variable_domain_signature", "from_context signature carries the key", "the context key of a from_context variable is not part of the signature", vds.lineno)
 
 
 def run(repo: Repo, R: Report) -> None:
